@@ -72,7 +72,9 @@ func VerifC15_IDFromPath() {
 		verifPathAlphabet(v)
 		return v
 	}
-	p := sym("lead", 1) + sym("prefix", 4) + sym("sep", 1) + sym("idhead", 4) + mid[:59] + sym("idtail", 1)
+	// the name is a full ID (64 digits) or a shorter / longer even-length hex string
+	k := []int{59, 1, 3, 57, 61}[vChoose("id-digits", 5)]
+	p := sym("lead", 1) + sym("prefix", 4) + sym("sep", 1) + sym("idhead", 4) + (mid + "ee")[:k] + sym("idtail", 1)
 	switch vChoose("suffix", 4) {
 	case 0:
 	case 1:
